@@ -170,7 +170,7 @@ func c15(r *core.Run) {
 		shapeCase("state.ControlMessage by value", func(id int) state.ControlMessage { return *state.Reset("") }),
 		shapeCase("state.ControlMessage by pointer", func(id int) *state.ControlMessage { return state.Reset("") }),
 	}
-	for round := 0; round < r.Pick(6, 120); round++ {
+	for round := 0; round < r.Pick(6, 600); round++ {
 		cases = append(cases, concurrentShapes(150+50*(round%4))...)
 	}
 	var segs []core.Segment
